@@ -339,8 +339,18 @@ func TestC13(t *testing.T) {
 				reqs = append(reqs, "r"+hx(uint64(q)))
 			}
 		}
+		// sometimes the declared scope is larger than what the stream holds; the input is a
+		// seekable bytes.Reader or hidden behind a plain io.Reader
+		scope := len(data)
+		if k%3 == 0 {
+			scope += g.r.Intn(12)
+		}
 		obs := guard(func() string {
-			dr := codec.NewDecodingReader(bytes.NewReader(data), uint64(len(data)))
+			var in io.Reader = bytes.NewReader(data)
+			if k%2 == 0 {
+				in = struct{ io.Reader }{in}
+			}
+			dr := codec.NewDecodingReader(in, uint64(scope))
 			var parts []string
 			for _, q := range reqs {
 				k, _ := strconv.ParseUint(q[1:], 16, 64)
@@ -359,7 +369,7 @@ func TestC13(t *testing.T) {
 			}
 			return "OK " + strings.Join(parts, ",")
 		})
-		out.emit("skip", "c13s", []string{hexBytes(data), strings.Join(reqs, ",")}, obs)
+		out.emit("skip", "c13s", []string{hexBytes(data), strings.Join(reqs, ","), hx(uint64(scope))}, obs)
 	}
 	// values whose encoding is offsets only (all variable-size items empty): a truncated offset
 	// table leaves the scratch buffer holding the previous, identical offset
